@@ -138,6 +138,7 @@ pub fn builder_text(bb: &BoardBuilder) -> String {
 }
 
 pub struct Cfg {
+    pub gen_play_pawns: bool,
     pub starts_only: bool,
     pub obs: BTreeSet<String>,
     pub plies: u64,
@@ -370,7 +371,10 @@ impl<'a> Driver<'a> {
                     }
                 }
                 Some(Err(_)) => {
-                    if c != *b || c.hash() != b.hash() || format!("{:#}", c) != before_s || c.checkers() != b.checkers() || c.pinned() != b.pinned() {
+                    // == covers placement, rights, ep, hash, checkers, pins and clocks; the text is compared on a sample
+                    if c != *b || c.hash() != b.hash() || c.checkers() != b.checkers() || c.pinned() != b.pinned()
+                        || ((m.from as usize * 64 + m.to as usize) % 97 == 0 && format!("{:#}", c) != before_s)
+                    {
                         bad_err.push(m);
                     }
                 }
@@ -841,7 +845,8 @@ impl<'a> Driver<'a> {
         let king = b.king(b.side_to_move());
         let mut api = 0;
         for m in legal_moves(&b) {
-            if m.from != king {
+            let wanted = m.from == king || (self.cfg.gen_play_pawns && b.piece_on(m.from) == Some(Piece::Pawn));
+            if !wanted {
                 continue;
             }
             let mut c = b.clone();
@@ -927,7 +932,7 @@ pub fn run(args: &Args) {
     let roots = Roots::load();
     let mut sh = Shards::new(out, shards);
     {
-        let cfg = Cfg { starts_only: args.get("root-mix") == Some("starts"), obs: args.list("obs").into_iter().collect(), plies: args.num("plies", 24), heavy_every: args.num("heavy-every", 1) };
+        let cfg = Cfg { gen_play_pawns: args.get("gen-play") == Some("pawnking"), starts_only: args.get("root-mix") == Some("starts"), obs: args.list("obs").into_iter().collect(), plies: args.num("plies", 24), heavy_every: args.num("heavy-every", 1) };
         let mut d = Driver { out: &mut sh, rng: Rng::new(seed), cfg, roots: &roots, all_moves: all_move_values(), states: 0 };
         // subtrees below curated roots: every (position, move) pair near the roots
         let sub = args.num("subtrees", 0);
